@@ -66,7 +66,7 @@ def cases(tier):
 def plan(tier, seed):
 	nsh = 16 if tier == 'quick' else 64
 	return [('t_cli', dict(tier=tier, shard=s, nshards=nsh)) for s in range(nsh)] + [('t_chunks', dict()), ('t_labels', dict())] + \
-	       [('t_stdout', dict(shard=s, nshards=8, tier=tier)) for s in range(8)]
+	       [('t_stdout', dict(shard=s, nshards=12, tier=tier)) for s in range(12)]
 
 
 def invoke(fx, d, batch, v, tag='out'):
@@ -101,7 +101,7 @@ def invoke(fx, d, batch, v, tag='out'):
 	else:
 		ks = clifix.kspec_of('P0')
 		sp = os.path.join(d, 'batch.gs')
-		ids = [f'id-{l}-{i}' for i, l in enumerate(batch)]
+		ids = [('id-{}-{}', 'refseq/{}.{}.fa.gz', '{}-{}.fasta')[i % 3].format(l, i) for i, l in enumerate(batch)]        # incl. IDs that look like paths / file names
 		dump_signatures(sp, AnnotatedSignatures(SignatureArray([clifix.lib_signature('P0', dict(clifix.QUERIES, **clifix.EXTRA_QUERIES)[l]) for l in batch], ks, dtype=ks.index_dtype), ids, SignaturesMeta()))
 		args += ['-s', sp]
 		exp_labels = ids
@@ -344,8 +344,8 @@ def replay(case, kind=None):
 		return [v for v in t_chunks().violations if v['case'] == case]
 	if case['config'].get('dest') == 'default-stdout':
 		vs = []
-		for s in range(8):
-			vs += t_stdout(s, 8, 'thorough', only=(case['batch'], case['config'])).violations
+		for s in range(12):
+			vs += t_stdout(s, 12, 'thorough', only=(case['batch'], case['config'])).violations
 		return vs[:1]
 	with fixtures.workdir('c08r') as d:
 		fx = clifix.build(os.path.join(d, 'fx'), params=['P0'])
